@@ -14,10 +14,24 @@
   * `compute_hidden_layout` writes `Layout.withOrder 0`, passes `LayoutInput.hidden` to the children and returns
     `LayoutOutput.hidden` (what `Eval.hiddenLayout` / `Eval.evalNodeWith` do),
   for every argument and every `[Num α]`.
+
+  `compute_cached_layout` (translated in interaction form, `Gen.Root.compute_cached_layout`; the `compute_uncached` closure takes the
+  tree, so it is a sub-program):
+  * `compute_cached_layout_eq`: the generated program is `cache_get`; on a hit return the entry; on a miss run `compute_uncached`,
+    `cache_store` its result under the same key, return it;
+  * `compute_cached_layout_run`: the same through any handler of the tree methods;
+  * `evalNodeWith_is_compute_cached_layout`: the cache discipline of the tree-level evaluator `Eval.evalNodeWith` with the real
+    cache (the definition the tree-level theorems of C01, C05, C16, C17 are about) IS the generated `compute_cached_layout`, run on the
+    node's data with `Gen.Cache.get` / `Gen.Cache.store` (themselves tied to Model/Cache.lean by Props/TieCache.lean) and the
+    dispatch body as `compute_uncached`.
 -/
 import TaffyVerif.Generated.Compute
+import TaffyVerif.Generated.Root
 import TaffyVerif.Model.Round
 import TaffyVerif.Model.Prog
+import TaffyVerif.Model.Eval
+import TaffyVerif.Props.TieLayoutTree
+import TaffyVerif.Props.TieCache
 
 namespace TieCompute
 variable {α : Type} [Num α]
@@ -44,5 +58,121 @@ theorem round_layout_start_eq (t : LTree α) :
 theorem hidden_node_layout_eq : Gen.Compute.compute_hidden_layout_node_layout (α := α) = Layout.withOrder 0 := rfl
 theorem hidden_child_input_eq : Gen.Compute.compute_hidden_layout_child_input (α := α) = LayoutInput.hidden := rfl
 theorem hidden_output_eq : Gen.Compute.compute_hidden_layout_output (α := α) = LayoutOutput.hidden := rfl
+
+/-! ### `compute_cached_layout` -/
+section Cached
+open TieLayoutTree
+variable {N σ : Type}
+
+/-- **Tie, `compute_cached_layout`.**  lookup; hit: return it; miss: compute, store under the same key, return -/
+theorem compute_cached_layout_eq (node : N) (inputs : LayoutInput α)
+    (computeUncached : N → LayoutInput α → Gen.Tree.Prog α N (LayoutOutput α)) :
+    Gen.Root.compute_cached_layout node inputs computeUncached =
+      .cache_get node inputs.knownDimensions inputs.availableSpace inputs.runMode fun entry =>
+        match entry with
+        | some cached => .ret cached
+        | none =>
+          (computeUncached node inputs).bind fun out =>
+            .cache_store node inputs.knownDimensions inputs.availableSpace inputs.runMode out fun _ => .ret out := by
+  simp only [Gen.Root.compute_cached_layout]
+  congr 1
+  funext entry
+  cases entry <;> rfl
+
+/-- the same through any handler of the tree methods -/
+theorem compute_cached_layout_run (h : Handler α N σ) (node : N) (inputs : LayoutInput α)
+    (computeUncached : N → LayoutInput α → Gen.Tree.Prog α N (LayoutOutput α)) (s : σ) :
+    h.run (Gen.Root.compute_cached_layout node inputs computeUncached) s =
+      match h.cacheGet node inputs.knownDimensions inputs.availableSpace inputs.runMode s with
+      | some cached => some (cached, s)
+      | none =>
+        (h.run (computeUncached node inputs) s).map fun r =>
+          (r.1, h.cacheStore node inputs.knownDimensions inputs.availableSpace inputs.runMode r.1 r.2) := by
+  rw [compute_cached_layout_eq]
+  simp only [Handler.run]
+  cases h.cacheGet node inputs.knownDimensions inputs.availableSpace inputs.runMode s with
+  | some c => rfl
+  | none =>
+    simp only [run_bind]
+    cases h.run (computeUncached node inputs) s <;> rfl
+
+/-- the tree methods on ONE node of the evaluator (its cache is the real nine-slot cache, read and written with the GENERATED
+`Cache::get` / `Cache::store` / `Cache::clear`); `compute_child_layout` is `body` -/
+def nodeHandler (body : LayoutInput α → Eval.NS α (CacheModel.Cache α) → LayoutOutput α × Eval.NS α (CacheModel.Cache α)) :
+    Handler α Unit (Eval.NS α (CacheModel.Cache α)) where
+  style _ _ := Style.default
+  setLayout _ l ns := match ns with | .mk c _ k => .mk c l k
+  child _ inp ns := body inp ns
+  cacheGet _ kd av rm ns := Gen.Cache.get ns.cache kd av rm
+  cacheStore _ kd av rm o ns := match ns with | .mk c l k => .mk (Gen.Cache.store c kd av rm o) l k
+  cacheClear _ ns := match ns with | .mk c l k => .mk (Gen.Cache.clear c).1 l k
+
+/-- what `Eval.evalNodeWith` computes for a node on a cache miss (the dispatch on `(display, has_children)` and the call of the
+selected algorithm; the children are evaluated by `evalNodeWith` with one unit of fuel less) — the closure `TaffyView` passes to
+`compute_cached_layout` -/
+def evalBody (sel : Display → Bool → Option Gen.Facts.Callee) (algs : Eval.Algs α) (fuel : Nat) (t : STree α)
+    (inp : LayoutInput α) (ns : Eval.NS α (CacheModel.Cache α)) : LayoutOutput α × Eval.NS α (CacheModel.Cache α) :=
+  match t with
+  | .node style ctx kids =>
+    let evalChild : Nat → LayoutInput α → List (Eval.NS α (CacheModel.Cache α)) →
+        LayoutOutput α × List (Eval.NS α (CacheModel.Cache α)) := fun i cin ks =>
+      match kids[i]?, ks[i]? with
+      | some t, some k =>
+        let r := Eval.evalNodeWith Eval.realCache sel algs fuel t k cin
+        (r.1, ks.set i r.2)
+      | _, _ => (LayoutOutput.hidden, ks)
+    let childStyles := kids.map STree.style
+    let run := fun (p : ProgM α (LayoutOutput α)) =>
+      match ns with
+      | .mk c l nk => let r := Eval.runProg evalChild p nk; (r.1, Eval.NS.mk c l r.2)
+    match sel style.display (!kids.isEmpty) with
+    | some .hidden => (LayoutOutput.hidden, Eval.hiddenLayout Eval.realCache ns)
+    | some .block => run (algs.block style childStyles inp)
+    | some .flex => run (algs.flex style childStyles inp)
+    | some .grid => run (algs.grid style childStyles inp)
+    | some .leaf => (algs.leaf inp style (Eval.measureOf ctx), ns)
+    | none => (LayoutOutput.hidden, ns)
+
+/-- **The evaluator's cache discipline is the generated `compute_cached_layout`.**  Every non-hidden evaluation of a node by
+`Eval.evalNodeWith` with the real cache (any dispatch, algorithms, fuel, node, node data, input) is the generated
+`compute_cached_layout` run on the node's data, with the dispatch body `evalBody` as `compute_uncached`: lookup with the generated
+`Cache::get`; hit: the cached output, data unchanged; miss: run the body, store its output with the generated `Cache::store`. -/
+theorem evalNodeWith_is_compute_cached_layout (sel : Display → Bool → Option Gen.Facts.Callee) (algs : Eval.Algs α) (fuel : Nat)
+    (t : STree α) (ns : Eval.NS α (CacheModel.Cache α)) (inp : LayoutInput α)
+    (hrm : (inp.runMode == .performHiddenLayout) = false) :
+    (nodeHandler (evalBody sel algs fuel t)).run
+        (Gen.Root.compute_cached_layout () inp fun n i => .compute_child_layout n i .ret) ns =
+      some (Eval.evalNodeWith Eval.realCache sel algs (fuel + 1) t ns inp) := by
+  obtain ⟨style, ctx, kids⟩ := t
+  obtain ⟨c, l, nk⟩ := ns
+  rw [compute_cached_layout_run]
+  simp only [Eval.evalNodeWith, hrm, Bool.false_eq_true, if_false, nodeHandler, evalBody, Eval.realCache, TieCache.get_eq,
+    TieCache.store_eq, Eval.NS.cache]
+  cases CacheModel.Cache.get c inp.knownDimensions inp.availableSpace inp.runMode with
+  | some c => rfl
+  | none =>
+    simp only [Handler.run, Option.map]
+    generalize sel style.display (!kids.isEmpty) = callee
+    rcases callee with _ | (_ | _ | _ | _ | _) <;> simp only []
+    -- the dispatch arms agree literally, except that the closure evaluating a child is the same `match` compiled twice
+    -- (here and in `Eval.evalNodeWith`): equal by cases on its two scrutinees
+    all_goals
+      repeat' first
+        | rfl
+        | (funext i cin ks; cases kids[i]? <;> cases ks[i]? <;> rfl)
+        | congr 1
+
+end Cached
+
+/-- concrete instance: on an empty cache the generated `compute_cached_layout` misses, runs the closure once and stores the
+result under the input's key; a second lookup with the same `PerformLayout` input then hits -/
+example (o : LayoutOutput α) (inp : LayoutInput α) (h : inp.runMode = .performLayout) (hkd : inp.knownDimensions = ⟨none, none⟩)
+    (hav : inp.availableSpace = ⟨.maxContent, .maxContent⟩) :
+    ((nodeHandler (fun _ ns => (o, ns))).run
+        (Gen.Root.compute_cached_layout () inp fun n i => .compute_child_layout n i .ret)
+        (.mk Gen.Cache.new Layout.new [])).map (fun r => (r.1, r.2.cache.finalLayoutEntry.map (·.content))) = some (o, some o) := by
+  rw [compute_cached_layout_run]
+  simp only [nodeHandler, h, hkd, hav]
+  rfl
 
 end TieCompute
